@@ -16,8 +16,9 @@ lexers of C03 / C04; a placeholder counts only outside them).
   the one written for the i-th value.
 * `C01_statement`: the instance for the rendering of any statement of the model.
 * `render_safe`: **every** statement of the model whose pieces are individually well-formed
-  (`contentOK`: no panic marker, representable constant values, caller-supplied raw text only
-  as digit strings, no `CustomWithExpr` template) renders to a `Safe` list — by mutual structural
+  (`contentOK`: no panic marker, representable constant values, caller-supplied raw text (custom expressions, function
+  names, operators, keywords) only when it is non-empty and free of quote characters and placeholder marks,
+  no `CustomWithExpr` template) renders to a `Safe` list — by mutual structural
   induction over the 41 render functions (`Lemmas/RenderCtx.lean`), for every nesting depth,
   every dialect, both writers.  `C01_all_statements` is C01 for all those statements with no
   `Safe` hypothesis left.
